@@ -101,6 +101,7 @@ pub fn profile(prop: &str, rng: &mut Rng) -> Profile {
             p.small_chunks_pct = *rng.pick(&[40, 85]);
             p.eager_worker_pct = 50;
             p.huge_payloads = rng.chance(25);
+            p.flush_none_heavy = rng.chance(40);
         }
         "C04" => {
             p.nops = (10, 70);
